@@ -38,7 +38,7 @@ __CPROVER_ensures(RET->id == PROD(R_p->id, PROD(A_p->id, P_p->id)))
 }
 void h_f_galerkin(void) { const bmat *A, *P, *R; f_galerkin(A, P, R); }
 ''',
-    enforce='f_galerkin', replace=REPL, mode='loopfree', obj_bits=12, assumptions=A_SETUP,
+    enforce='f_galerkin', replace=REPL, mode='loopfree', obj_bits=12, assumptions=A_SETUP, replay='orchestration',
 )
 
 # ------------------------------------------------------------------ scaled_galerkin
@@ -71,7 +71,7 @@ __CPROVER_ensures(RET->id == SCALE(PROD(R_p->id, PROD(A_p->id, P_p->id)), s))
 }
 void h_f_scaled_galerkin(void) { const bmat *A, *P, *R; V s; f_scaled_galerkin(A, P, R, s); }
 ''',
-    enforce='f_scaled_galerkin', replace=REPL + ['bk_galerkin'], mode='loopfree', obj_bits=12, assumptions=A_SETUP,
+    enforce='f_scaled_galerkin', replace=REPL + ['bk_galerkin'], mode='loopfree', obj_bits=12, assumptions=A_SETUP, replay='orchestration',
 )
 
 # ------------------------------------------------------------------ coarse_operator of aggregation / smoothed_aggregation
@@ -109,7 +109,7 @@ __CPROVER_ensures(RET->id == SCALE(PROD(R_p->id, PROD(A_p->id, P_p->id)), UF_DIV
 }
 void h_f_coarse(void) { const aggr_params *s; const bmat *A, *P, *R; f_coarse(s, A, P, R); }
 ''',
-    enforce='f_coarse', replace=REPL + ['bk_galerkin', 'bk_scaled_galerkin'], mode='loopfree', obj_bits=12, assumptions=A_SETUP,
+    enforce='f_coarse', replace=REPL + ['bk_galerkin', 'bk_scaled_galerkin'], mode='loopfree', obj_bits=12, assumptions=A_SETUP, replay='orchestration',
 )
 sa_coarse = Unit(
     name='smoothed_aggregation_coarse_operator', props=['C03', 'C10'],
@@ -133,7 +133,7 @@ __CPROVER_ensures(RET->id == PROD(R_p->id, PROD(A_p->id, P_p->id)))
 }
 void h_f_coarse(void) { const bmat *A, *P, *R; f_coarse(A, P, R); }
 ''',
-    enforce='f_coarse', replace=REPL + ['bk_galerkin', 'bk_scaled_galerkin'], mode='loopfree', obj_bits=12, assumptions=A_SETUP,
+    enforce='f_coarse', replace=REPL + ['bk_galerkin', 'bk_scaled_galerkin'], mode='loopfree', obj_bits=12, assumptions=A_SETUP, replay='orchestration',
 )
 
 # ------------------------------------------------------------------ level::step_down / level::rebuild
@@ -216,7 +216,7 @@ __CPROVER_ensures((!g_thrown && !allow_rebuild) ==> (self->bP == 0 && self->bR =
 void h_f_step_down(void) { level *l; bmat *A; coarsening *C; _Bool ar; f_step_down(l, A, C, ar); }
 ''',
     enforce='f_step_down', replace=REPL + ['bk_transfer_operators', 'bk_coarse_operator', 'bk_copy_matrix'],
-    mode='loopfree', obj_bits=12, timeout=120, assumptions=A_SETUP + ['A-exc: try/catch(error::empty_level) is modelled by the g_thrown flag set by the transfer_operators contract'],
+    mode='loopfree', obj_bits=12, timeout=120, replay='orchestration', assumptions=A_SETUP + ['A-exc: try/catch(error::empty_level) is modelled by the g_thrown flag set by the transfer_operators contract'],
 )
 
 rebuild_level = Unit(
@@ -254,7 +254,7 @@ __CPROVER_ensures((self->bP != 0 && self->bR != 0) ? (RET->id == COARSE(C_p->id,
 void h_f_rebuild(void) { level *l; bmat *A; const coarsening *C; f_rebuild(l, A, C); }
 ''',
     enforce='f_rebuild', replace=REPL + ['bk_coarse_operator', 'bk_copy_matrix', 'bk_make_relax', 'bk_create_solver'],
-    mode='loopfree', obj_bits=12, assumptions=A_SETUP,
+    mode='loopfree', obj_bits=12, assumptions=A_SETUP, replay='orchestration',
 )
 
 
@@ -311,7 +311,7 @@ amg_rebuild = Unit(
                              Rule(r'level\.rebuild\(A, C, prm, bprm\)', 'LEVEL_REBUILD(levels[li_], A)', 1, why='member call -> C call')],
                       loops=[Loop('for(auto &level : levels)', AMG_REBUILD_LOOP)])},
     template=AMG_REBUILD_T, enforce='f_amg_rebuild', replace=['bk_level_rebuild'],
-    mode='inductive', obj_bits=12, timeout=200, assumptions=A_SETUP,
+    mode='inductive', obj_bits=12, timeout=200, assumptions=A_SETUP, replay='orchestration',
 )
 
 
@@ -391,7 +391,7 @@ do_init = Unit(
                              Rule(r'\*A\b', 'A', None, why='R-smartptr: handle viewed as value')],
                       loops=[Loop(r'while\(', DO_INIT_LOOP.replace('&& ROWS_LE_FALSE', ''), prefix=True)])},
     template=DO_INIT_T, enforce='f_do_init', replace=['bk_push_level', 'bk_push_coarse', 'bk_step_down'],
-    mode='inductive', obj_bits=12, timeout=200,
+    mode='inductive', obj_bits=12, timeout=200, replay='orchestration',
     assumptions=A_SETUP + ['A-term: termination of the coarsening loop is not proved (level sizes are data dependent; no decreases clause)'],
     not_decided=['level sizes strictly decrease', 'termination of the coarsening loop'],
 )
